@@ -92,16 +92,24 @@ theorem vm_query {fl : Bool} (prog : List Term) (query : Term) (max : Nat) (hfra
   have hq : query = img (fun v => .var v) (· - 10) query' := by
     rw [img_id]; exact (unshift 10 query).symm
   have hok0 : LvOK ([] : Lv) 0 := ⟨List.nodup_nil, fun _ h => by simp at h, .nil, fun _ h => by simp at h⟩
+  have hgv0 : ∀ v, query'.hasVar v = true → RV (fun v => Term.var v) (fun v => query'.hasVar v = true) v :=
+    fun v hv => ⟨v, hv, by simp [Term.hasVar]⟩
+  obtain ⟨hW2, hgD2, hitem⟩ := call_item (fl := fl) (d := 0) hsim0 hb' hw' hgv0
+  have hqr : query'.rename (· - 10) = query := unshift 10 query
+  rw [hqr] at hitem
   have hspec : PSpec fl query' max prog [] 0
       ({ id := 1, delayed := [Thunk.clause (clauseOf (qClause query')) (argList (qHead query'))
           (.collect query' max) [] 1] } : Pr)
       { startM prog with user := { (startM prog).user with nextId := 2 } } [] r1 := by
-    refine .callp (c := query) (K := .collect query' max) (env := []) (R := []) (q := query) (nv := B) (n := n)
-      hans0 (by decide) hw' hb' ?_ (by simpa using hs)
-    refine ⟨1000000, fun v => .var v, (· - 10), fun v => query'.hasVar v = true, [], Nat.le_of_eq hnv0.symm,
-      hsim0, .collect, .nil, CutsOK.nil _, hq, ?_, ?_⟩
-    · intro v hv; exact ⟨v, hv, by simp [Term.hasVar]⟩
-    · exact (unshift 10 query).symm
+    refine .alts (its := [(qClause query', some (.frames (SLD.bodyFrames false query 0)))])
+      (g := qHead query') (K := .collect query' max) (env := []) (R := []) (q := query) (nv := B) (n := n)
+      hans0 (by decide) (qHead_shape query') ?_ (by simpa using hs)
+    refine ⟨1000000, fun v => .var v, (· - 10), _, [], Nat.le_of_eq hnv0.symm,
+      hW2, .collect, .nil, CutsOK.nil _, hq, hgD2, ?_⟩
+    intro it hit
+    simp only [List.mem_singleton] at hit
+    subst hit
+    exact hitem
   rcases tp_all (tmpl := query') (max := max) (prog := prog) (F := F) hprog k _ [] _ sig m' hd hgood 0 [] r1 hspec hok0
       ⟨rfl, by show 0 < 2; omega⟩ hmax with hill | hm
   · exact Or.inl hill
